@@ -10,6 +10,7 @@ decoding  every literal syntax for integers (any size; decimal, 0x/0b/0o, NrDIGI
           with the value the generator started from.
 """
 import glob
+import math
 import os
 import re
 import shutil
@@ -18,6 +19,7 @@ import tempfile
 
 from hypothesis import strategies as st
 
+from .gens import wide_ints
 from .core import ROOT, Fail, GeneratorBug
 from .values import fbits, mcanon, norm
 
@@ -156,7 +158,7 @@ def check_decode(nl, cases, ctx=None):
         elif t == "float":
             src = c["text"]
             want = {"f": fbits(float(c["text"].rstrip("fF")))}
-            nt = "e" in src.lower() or src[-1] in "fF"
+            nt = "e" in src.lower() or src[-1] in "fF" or len(src) > 20
         elif t == "imag":
             src = c["text"] + c["suffix"]
             want = {"c": [fbits(0.0), fbits(float(c["text"]))]}
@@ -340,7 +342,8 @@ def worker(ctx):
     texts = st.one_of(soup, soup2, mut, mut, escapes, runaway)
     ctx.hyp(st.lists(texts, min_size=40, max_size=40).map(lambda xs: {"srcs": xs}), lambda c: ctx.check("parse", c), ctx.share(ctx.scale(800, 30000)), label="c15p")
     # decoding
-    big = st.one_of(st.integers(0, 300), st.integers(0, 2 ** 70), st.integers(2 ** 63 - 2, 2 ** 64 + 2), st.integers(1, 2000).flatmap(lambda k: st.integers(0, 2 ** k)))
+    big = st.one_of(st.integers(0, 300), st.integers(0, 2 ** 70), st.integers(2 ** 63 - 2, 2 ** 64 + 2), st.integers(1, 2000).flatmap(lambda k: st.integers(0, 2 ** k)),
+                    wide_ints(1, 300, signed=False), wide_ints(1, 3000, signed=False))
     forms = st.one_of(st.sampled_from(["dec", "hex", "bin", "oct", "b64"]), st.integers(2, 36).map(str))
     ints = st.builds(lambda n, f, u: {"t": "int", "n": n, "form": f, "upper": u}, big, forms, st.booleans())
     rats = st.integers(0, 2 ** 70).map(lambda n: {"t": "rat", "n": n})
@@ -349,7 +352,34 @@ def worker(ctx):
                       st.builds(lambda a, e: "%de%d" % (a, e), st.integers(0, 9999), st.integers(-320, 300)),
                       st.builds(lambda a, s: "%d%s" % (a, s), st.integers(0, 10 ** 9), st.sampled_from(["f", "F"])),
                       st.builds(lambda a, b, s: "%d.%d%s" % (a, b, s), st.integers(0, 99), st.integers(0, 99), st.sampled_from(["f", "F"])))
-    floats = ftext.map(lambda t: {"t": "float", "text": t})
+    # long float literals: the exact decimal expansion of a double, and the midpoint between two adjacent doubles nudged
+    # up / down / not at all in its last place (correct rounding needs every digit; ties go to even)
+    import decimal
+    dctx = decimal.Context(prec=2400)
+
+    def dec_text(d):
+        t = format(d, "f")
+        return t if "." in t else t + ".0"
+
+    def long_float(x, how):
+        x = abs(x)
+        if how == 0:
+            return dec_text(dctx.create_decimal(x))
+        y = math.nextafter(x, math.inf)
+        if math.isinf(y):
+            return dec_text(dctx.create_decimal(x))
+        m = dctx.divide(dctx.add(dctx.create_decimal(x), dctx.create_decimal(y)), decimal.Decimal(2))
+        t = dec_text(m)
+        if how == 1:
+            return t                      # exact tie
+        if how == 2:
+            return t + "0000000001"       # just above the midpoint
+        return t[:-1] + "4999999999" if t[-1] == "5" else t + "0"   # just below it
+    fdoubles = st.one_of(st.floats(min_value=1e-30, max_value=1e30), st.floats(min_value=0.5, max_value=4.0),
+                         st.floats(min_value=0.0, allow_nan=False, allow_infinity=False), st.sampled_from([1.0, 0.1, 2.0 ** 53, 9007199254740993.0, 5e-324, 1.7976931348623157e308]))
+    ftext_long = st.builds(long_float, fdoubles, st.integers(0, 3))
+    fshort = st.floats(min_value=1e-6, max_value=1e15).map(lambda x: repr(x) if "e" not in repr(x) else "1.5")
+    floats = st.one_of(ftext, ftext_long, ftext_long, fshort).map(lambda t: {"t": "float", "text": t})
     imags = st.builds(lambda a, b, s: {"t": "imag", "text": "%d.%d" % (a, b) if b is not None else "%d" % a, "suffix": s}, st.integers(0, 999),
                       st.one_of(st.none(), st.integers(0, 99)), st.sampled_from(["i", "j", "I", "J"]))
     cp = st.one_of(st.integers(0x20, 0x7e), st.sampled_from([0, 9, 10, 13, 0x22, 0x27, 0x5c, 0x7f, 0x80, 0xff, 0x100, 0x7ff, 0x800, 0xd7ff, 0xe000, 0xffff, 0x10000, 0x10ffff]),
